@@ -107,8 +107,11 @@ func (g *c17ZGen) cond(which string) (string, int, bool) {
 	if which != "r" {
 		domFn = "qname"
 	}
-	k := g.r.Intn(10)
-	if which == "q" && k >= 3 {
+	k := g.r.Intn(9)
+	if g.r.Chance(0.002) {
+		k = 9
+	}
+	if which == "q" && k >= 3 && k != 9 {
 		k = 3 + g.r.Intn(2)
 	}
 	switch {
@@ -131,7 +134,7 @@ func (g *c17ZGen) cond(which string) (string, int, bool) {
 		}
 		return neg + "qtype(" + strings.Join(ps, ", ") + ")", n, false
 	case which == "s" && k < 7:
-		return neg + "ip(" + g.pick("1.1.1.1", "10.0.0.0/8, 2001:db8::/32", "'::1'") + ")", 1, false
+		return neg + "ip(" + g.pick("1.1.1.1", "10.0.0.0/8, '2001:db8::/32'", "'::1'") + ")", 1, false
 	case which == "s":
 		n := 1 + g.r.Intn(2)
 		ps := make([]string, n)
@@ -157,7 +160,7 @@ func (g *c17ZGen) cond(which string) (string, int, bool) {
 	case k < 9: // per group
 		switch g.r.Intn(5) {
 		case 0:
-			return neg + "ip(" + g.pick("1.1.1.1", "10.0.0.0/8, 2001:db8::/32", "'::1'") + ")", 1, false
+			return neg + "ip(" + g.pick("1.1.1.1", "10.0.0.0/8, '2001:db8::/32'", "'::1'") + ")", 1, false
 		case 1:
 			return neg + "sip(" + g.pick("192.168.0.0/16", "10.1.2.3") + ")", 1, false
 		case 2:
